@@ -94,7 +94,11 @@ def regen_tables():
     rc2, out2 = run([PY, os.path.join(VERIF, "harness", "py2lean.py")], env={"PYTHONPATH": REPO, "RTAMT_REPO": REPO})
     if rc2 != 0:
         return False, out2
-    return True, out + out2
+    # tables of the ANTLR grammar files (Rtamt/Front/GeneratedGrammar.lean)
+    rc3, out3 = run([PY, os.path.join(VERIF, "harness", "g4_tables.py")], env={"PYTHONPATH": REPO, "RTAMT_REPO": REPO})
+    if rc3 != 0:
+        return False, out3
+    return True, out + out2 + out3
 
 
 def lean_sources_hash():
